@@ -21,6 +21,7 @@ _NL: /(\r?\n[\t ]*)+/
 %ignore " "
 %declare _INDENT _DEDENT
 '''
+MERGED_G = 'start: "a" x "d" | "b" x "e"\nx: "c"'
 EXPR_G = 'start: item+\nitem: NAME "=" NUM ";" | "(" item+ ")"\nNAME: /[a-z]+/\nNUM: /[0-9]+/\n%ignore /\\s+/'
 
 
@@ -39,8 +40,15 @@ def call(p, kind, text):
         if kind == 'interactive-abandoned':
             ip = p.parse_interactive(text); it = ip.iter_parse(); next(it, None); next(it, None); return ('ok', None)
         if kind == 'scan': return ('ok', [(tuple(m.range), norm(m.value)) for m in p.scan(text)])
+        if kind == 'interactive-accepts':
+            ip = p.parse_interactive(text)
+            try: ip.exhaust_lexer()
+            except UnexpectedInput: pass
+            return ('ok', sorted(ip.accepts()))
     except UnexpectedInput as e:
-        return ('err', type(e).__name__, getattr(e, 'line', None), getattr(e, 'column', None))
+        # what the error reports about possible continuations (and hence its message) belongs to the outcome
+        sets = tuple(sorted(x) if x is not None else None for x in (getattr(e, 'accepts', None), getattr(e, 'expected', None), getattr(e, 'allowed', None)))
+        return ('err', type(e).__name__, getattr(e, 'line', None), getattr(e, 'column', None), sets, str(e))
     except Exception as e:
         return ('raised', type(e).__name__, str(e)[:60])
 
@@ -50,6 +58,8 @@ CONFIGS = [
     ('earley-basic', lambda: Lark(EXPR_G, parser='earley', lexer='basic'), ['a=1;', 'a=;', '(a=1'], False),
     ('earley-dynamic', lambda: Lark(EXPR_G, parser='earley', lexer='dynamic'), ['a=1;', 'a=;', '(a=1;)'], False),
     ('cyk', lambda: Lark(EXPR_G, parser='cyk'), ['a=1;', 'a=;'], False),
+    # one LALR state (after x) reached with two different stacks: what is acceptable there depends on the stack below
+    ('lalr-merged-state', lambda: Lark(MERGED_G, parser='lalr'), ['acd', 'bce', 'acc', 'bcc', 'ac', 'bc', 'ace', 'bcd'], True),
     ('lalr-indenter', lambda: Lark(IND_G, parser='lalr', postlex=TreeIndenter()), ['a\n  b\n  c\n', 'a(x)\n  b\n', 'a(\n  b\n', 'a(x y)\n', 'a\n    b\n  c\n', 'a\n  b(\n'], True),
 ]
 
@@ -58,7 +68,7 @@ def histories():
     fails, evals = [], 0
     H = 3 if tier == 'quick' else 4
     for name, make, texts, lalr in CONFIGS:
-        kinds = ['parse', 'lex', 'lex-abandoned'] + (['interactive-abandoned'] if lalr else []) + (['scan'] if lalr and 'indenter' not in name else [])
+        kinds = ['parse', 'lex', 'lex-abandoned'] + (['interactive-abandoned', 'interactive-accepts'] if lalr else []) + (['scan'] if lalr and 'indenter' not in name else [])
         ops = [(k, t) for k in kinds for t in texts]
         fresh = {}
         for op in ops:
@@ -73,7 +83,7 @@ def histories():
                 call(p, *ops[i])
             evals += 1
             got = call(p, *ops[seq[-1]])
-            if got != fresh[ops[seq[-1]]] and ops[seq[-1]][0] in ('parse', 'lex', 'scan'):
+            if got != fresh[ops[seq[-1]]] and ops[seq[-1]][0] in ('parse', 'lex', 'scan', 'interactive-accepts'):
                 fails.append({'key': 'history', 'input': {'config': name, 'earlier_calls': [ops[i] for i in seq[:-1]], 'call': ops[seq[-1]]}, 'observed': got, 'required': fresh[ops[seq[-1]]]})
                 break
     return fails, evals
@@ -101,6 +111,27 @@ def other_instances():
         for w in order:
             if got[w] != ref[w]:
                 fails.append({'key': 'other-instances', 'input': {'created_in_order': order, 'instance': w}, 'observed': got[w], 'required': ref[w]})
+    return fails, evals
+
+
+def grammar_object():
+    """several instances built from ONE lark.load_grammar.Grammar object (Lark accepts it in place of the text) under different priority
+    modes: each behaves like the instance built from the text, whatever was built before or after it"""
+    from lark.load_grammar import load_grammar
+    fails, evals = [], 0
+    text = 'start: a | b\na.1: "x"\nb.2: "x"\n'
+    ref = {m: call(Lark(text, parser='earley', priority=m), 'parse', 'x') for m in ('normal', 'invert', None)}
+    for order in itertools.product(('normal', 'invert', None), repeat=3):
+        g = load_grammar(text, '<string>', [], False)[0]
+        built = []
+        for m in order:
+            built.append((m, Lark(g, parser='earley', priority=m)))
+            for m2, inst in built:          # every instance built so far, again after each construction
+                evals += 1
+                got = call(inst, 'parse', 'x')
+                if got != ref[m2] and not fails:
+                    fails.append({'key': 'grammar-object', 'input': {'grammar': text, 'priority_modes_built_in_order': list(order[:len(built)]), 'instance': m2, 'text': 'x'},
+                                  'observed': got, 'required': ref[m2]})
     return fails, evals
 
 
@@ -140,7 +171,7 @@ if '--child' in sys.argv:
     sys.exit(0)
 
 fails, evals = [], 0
-for part in (histories, other_instances, threads):
+for part in (histories, other_instances, grammar_object, threads):
     f, e = part()
     fails += f; evals += e
 res = {'fails': bool(fails), 'evaluations': evals, 'distinct': evals, 'failures': fails[:5]}
